@@ -12,6 +12,7 @@ import (
 	"time"
 
 	"github.com/LiskHQ/lisk-engine/pkg/codec"
+	"github.com/LiskHQ/lisk-engine/pkg/log"
 	"github.com/LiskHQ/lisk-engine/pkg/p2p"
 	"pgregory.net/rapid"
 
@@ -78,6 +79,8 @@ type escn struct {
 	Mirror   bool  // short rate-limit interval AND offences: node 1 exceeds the limit of ONE procedure of node 0 right after an observed counter reset
 	Multi    bool  // a peer with several simultaneous connections to node 0 (multiconn_test.go)
 	MC       []mcycle
+	Conc     bool  // concurrent traffic around the reset ticks of node 0 (conc_test.go): offenders overrun a limit right before a tick while innocent peers send legal amounts in every window
+	CC       cconf
 	Events   []eev
 }
 
@@ -95,7 +98,7 @@ func (s *escn) lim(x int, proc string) (int, int) {
 	if i >= 0 && i < len(s.PP) {
 		P = s.PP[i]
 	}
-	if s.Mirror && x != 0 {
+	if (s.Mirror || s.Conc) && x != 0 {
 		L = 1000 * L
 	}
 	return L, P
@@ -131,6 +134,10 @@ func genScenario() *rapid.Generator[escn] {
 			return s
 		case f >= 14 && f <= 16:
 			genMirror(t, &s)
+			return s
+		case f >= 4 && f <= 7:
+			// concurrent traffic around reset ticks (measured share ~13 %)
+			genConc(t, &s)
 			return s
 		}
 		s.Legal = rapid.IntRange(0, 3).Draw(t, "legal") == 0
@@ -496,6 +503,9 @@ type erun struct {
 	res   *seqResult
 	seq   int
 	pre   map[[2]int]*preState // snapshots taken right before the last message that may earn a penalty (consumed by expectPenalty)
+	// optional (conc_test.go): the logger handed to node i, and a callback run by the echo handlers of node i
+	loggerFor func(i int) log.Logger
+	onServe   func(i int, req *p2p.Request)
 	// legal / mirror scenarios
 	started    time.Time // all nodes started (their rate limiters tick from about here)
 	firstReset bool      // a counter reset was observed at least one interval after the start
@@ -566,12 +576,22 @@ func (r *erun) setup() error {
 			listen = nil
 		}
 		cfg := &p2p.Config{Addresses: listen, ChainID: []byte{0xc1, 0x80, 0x00, 0x01}, Version: "1.0", ConnectionSecurity: s.Security, BlacklistedIPs: bl}
-		c := p2p.NewConnection(nopLogger{}, cfg)
+		var lg log.Logger = nopLogger{}
+		if r.loggerFor != nil {
+			lg = r.loggerFor(i)
+		}
+		c := p2p.NewConnection(lg, cfg)
 		n.conn = c
 		n.bm = newBanModel(expiry, sweep, bl)
 		for _, proc := range echoProcs {
 			L, P := s.lim(i, proc)
-			if err := c.RegisterRPCHandler(proc, func(w p2p.ResponseWriter, req *p2p.Request) { w.Write(req.Data) }, p2p.WithRPCMessageCounter(L, P)); err != nil {
+			node := i
+			if err := c.RegisterRPCHandler(proc, func(w p2p.ResponseWriter, req *p2p.Request) {
+				if r.onServe != nil {
+					r.onServe(node, req)
+				}
+				w.Write(req.Data)
+			}, p2p.WithRPCMessageCounter(L, P)); err != nil {
 				return err
 			}
 		}
@@ -588,7 +608,7 @@ func (r *erun) setup() error {
 		}); err != nil {
 			return err
 		}
-		if s.Legal || s.Mirror {
+		if s.Legal || s.Mirror || (s.Conc && i == 0) {
 			c.VerifSetRateLimitInterval(s.rateInterval())
 		} else {
 			c.VerifSetRateLimitInterval(time.Hour) // no reset inside an offence scenario: the counter model is exact
@@ -1561,6 +1581,9 @@ func runScenario(s escn) *seqResult {
 	if s.Multi {
 		return runMultiScenario(s)
 	}
+	if s.Conc {
+		return runConcScenario(s)
+	}
 	res := &seqResult{labels: map[string]bool{}}
 	r := &erun{s: s, start: time.Now(), res: res}
 	defer r.teardown()
@@ -1695,36 +1718,41 @@ func runScenarioRobust(s escn) *seqResult {
 func TestE2E(t *testing.T) {
 	n := 8
 	rapid.Check(t, func(rt *rapid.T) {
-		scns := rapid.SliceOfN(genScenario(), n, n).Draw(rt, "scenarios")
-		results := make([]*seqResult, len(scns))
-		var wg sync.WaitGroup
-		for i := range scns {
-			if !scns[i].On {
-				continue
-			}
-			wg.Add(1)
-			go func(i int) {
-				defer wg.Done()
-				results[i] = runScenarioRobust(scns[i])
-			}(i)
-		}
-		wg.Wait()
-		var fails []string
-		for i, res := range results {
-			if res == nil {
-				continue
-			}
-			if res.violation != "" {
-				fails = append(fails, fmt.Sprintf("scenario %d: C18 violated (end-to-end, 3 attempts): %s\nhistory:\n%s", i, res.violation, res.render()))
-			} else if res.infra != "" {
-				evid.R.Inconclusive("e2e scenario dropped (environment): %s", res.infra)
-				evid.R.Label("e2e-inconclusive", 1)
-			} else {
-				register("e2e", res)
-			}
-		}
-		if len(fails) > 0 {
-			rt.Fatalf("%s", strings.Join(fails, "\n\n"))
-		}
+		runE2EBatch(rt, rapid.SliceOfN(genScenario(), n, n).Draw(rt, "scenarios"))
 	})
+}
+
+// runE2EBatch runs the scenarios of one rapid case in parallel and registers / reports the results.
+func runE2EBatch(rt *rapid.T, scns []escn) {
+	results := make([]*seqResult, len(scns))
+	var wg sync.WaitGroup
+	for i := range scns {
+		if !scns[i].On {
+			continue
+		}
+		wg.Add(1)
+		go func(i int) {
+			defer wg.Done()
+			results[i] = runScenarioRobust(scns[i])
+		}(i)
+	}
+	wg.Wait()
+	var fails []string
+	for i, res := range results {
+		if res == nil {
+			continue
+		}
+		if res.violation != "" {
+			fails = append(fails, fmt.Sprintf("scenario %d: C18 violated (end-to-end, 3 attempts): %s\nhistory:\n%s", i, res.violation, res.render()))
+		} else if res.infra != "" {
+			evid.R.Inconclusive("e2e scenario dropped (environment): %s", res.infra)
+			evid.R.Label("e2e-inconclusive", 1)
+		} else {
+			register("e2e", res)
+			registerCounts(res)
+		}
+	}
+	if len(fails) > 0 {
+		rt.Fatalf("%s", strings.Join(fails, "\n\n"))
+	}
 }
